@@ -10,6 +10,12 @@ Import ListNotations.
 
 (* ---- any arithmetic (floats included), any products, any sizes ---- *)
 
+(* the function the correspondence check runs (CSC products of Model/Sparse.v) is [run] at those products,
+   by definition: every theorem below applies to it as it stands *)
+Example run_sparse_is_run : forall (A : SArith) sv (s : sparse (SA A)) b x n tol,
+  run_sparse sv s b x n tol = run (sp_mul s) (sp_tmul s) (sp_rows s) (sp_cols s) sv b x n tol.
+Proof. reflexivity. Qed.
+
 Theorem ok_le_budget : forall (A : SArith) (mulA mulAT : list (T (SA A)) -> res (list (T (SA A)))) rows cols
     sv b x0 n tol k x g,
   run mulA mulAT rows cols sv b x0 n tol = Ok (IOk k, x, g) -> k <= n.
